@@ -120,6 +120,13 @@ func main() {
 			replace[filepath.Join(*repo, "sugardb", e.Name())] = filepath.Join(expDir, e.Name())
 		}
 	}
+	expRaft := filepath.Join(*verif, "rt", "export_raft")
+	ents, _ = os.ReadDir(expRaft)
+	for _, e := range ents {
+		if strings.HasSuffix(e.Name(), ".go") {
+			replace[filepath.Join(*repo, "internal", "raft", e.Name())] = filepath.Join(expRaft, e.Name())
+		}
+	}
 	// extra replacements: REL=FILE (mutants applied through the overlay)
 	for _, a := range flag.Args() {
 		kv := strings.SplitN(a, "=", 2)
